@@ -721,7 +721,7 @@ def run(tier):
         PROP, "search progress reports", RULES, "other",
         explanation=("Decides the structural clauses: (1) the nominal depth limit only bounds the iterative-deepening loop and is never compared with the per-node ply counter, "
                      "so `go depth N` runs iterations 1..=N; (2) exactly one info line per iteration, printed with the loop variable, only on the edge where both abort tests "
-                     "are false, at most once per range advance, after that iteration's search: depths are reported in order without gaps or repeats and only when completed; "
+                     "are false, at most once per range advance, after that iteration's search; the loop is left only when 1..=max_depth is exhausted or an abort test fires, and no other output site prints a line starting with `info`: depths are reported in order without gaps or repeats and only when completed; "
                      "(3) every PV move passed is_legal_move on the position it is played in and the scratch board is restored; (4) score and best move are written together. "
                      "(5) the text of a move (Display = to_notation, 64 square names, promotion letters) and every shape of the info line against the UCI grammar, by per-case propagation; (6) a logged line is "
                      "one `{}\\n` print. Not decided: correctness of the mate distance."),
